@@ -9,14 +9,15 @@
 (* real start-up path.                                                     *)
 (***************************************************************************)
 EXTENDS VtkFormat
-CONSTANTS NTypesDefined            \* number of cell types the parameter file defines
-VARIABLES pop, op, at, mut
+CONSTANTS NTypesDefined,           \* number of cell types the parameter file defines
+          WrapIds                  \* point ids at which index arithmetic of a reader can wrap: 2^31 / m + d and 2^32 / m + d for small m, d
+VARIABLES pop, op, at, arg, mut
 
 Ops == {"none", "npoints_plus", "npoints_minus", "drop_point", "ncells_plus", "ncells_minus", "nints_plus", "rowcount_plus", "rowcount_minus",
-        "nfaces_plus", "nfaces_minus", "node_oob", "node_huge", "ctype_bad", "ntypes_minus", "typeid_oob", "drop_typeid", "dup_row", "drop_row", "facesize_4"}
+        "nfaces_plus", "nfaces_minus", "node_oob", "node_huge", "ctype_bad", "ntypes_minus", "typeid_oob", "drop_typeid", "dup_row", "drop_row", "facesize_4", "node_wrap"}
 
 SetRow(f, i, r) == [f EXCEPT !.rows[i] = r]
-Mutate(f, o, i) ==
+Mutate(f, o, i, a) ==
     CASE o = "none"          -> f
       [] o = "npoints_plus"  -> [f EXCEPT !.npoints = @ + 1]
       [] o = "npoints_minus" -> [f EXCEPT !.npoints = @ - 1]
@@ -37,6 +38,7 @@ Mutate(f, o, i) ==
       [] o = "dup_row"       -> [f EXCEPT !.rows = @ \o <<@[i]>>]
       [] o = "drop_row"      -> [f EXCEPT !.rows = SubSeq(@, 1, Len(@) - 1)]
       [] o = "facesize_4"    -> SetRow(f, i, [f.rows[i] EXCEPT ![3] = 4])
+      [] o = "node_wrap"     -> SetRow(f, i, [f.rows[i] EXCEPT ![Len(f.rows[i]) - 1] = a])
 
 NodeIdsInRange(f) == \A i \in 1..Len(f.rows) : \A j \in 3..Len(f.rows[i]) : ((j - 3) % 4 # 0) => f.rows[i][j] < f.npoints
 FaceSizes3(f)     == \A i \in 1..Len(f.rows) : \A j \in 3..Len(f.rows[i]) : ((j - 3) % 4 = 0) => f.rows[i][j] = 3
@@ -53,9 +55,11 @@ Init == /\ \E n \in 1..2 : \E ms \in [1..n -> Seeds] : \E ts \in [1..n -> 0..(NT
               pop = [i \in 1..n |-> [mesh |-> ms[i], xyz |-> SeedXyz(ms[i], 10 * i), type |-> ts[i]]]
         /\ op \in Ops /\ at \in 1..Len(pop)
         /\ (op \in {"none", "npoints_plus", "npoints_minus", "drop_point", "ncells_plus", "ncells_minus", "nints_plus", "ntypes_minus", "drop_typeid", "drop_row"} => at = 1)
-        /\ mut = Mutate(Write(pop), op, at)
-Next == UNCHANGED <<pop, op, at, mut>>
-Spec == Init /\ [][Next]_<<pop, op, at, mut>>
+        /\ arg \in (IF op = "node_wrap" THEN WrapIds ELSE {0})
+        /\ (op = "node_wrap" => Len(pop) = 1)
+        /\ mut = Mutate(Write(pop), op, at, arg)
+Next == UNCHANGED <<pop, op, at, arg, mut>>
+Spec == Init /\ [][Next]_<<pop, op, at, arg, mut>>
 
 \* the base file is well formed and every fault really breaks the format's consistency
 Inv_BaseWellFormed == op = "none" => WellFormedFile(mut)
